@@ -78,17 +78,26 @@ func (fc *FuncCtx) parseModifies1(env *Env, ent0 string) []modLoc {
 			// fields(T.f) or fields(T)
 			inner := ent[7 : len(ent)-1]
 			fld := ""
-			if k := strings.LastIndex(inner, "."); k >= 0 && !strings.Contains(inner[k:], "/") {
-				// could be pkg.T or T.f: try T.f first
-				te := TypeExpr{Kind: "name", Name: inner[:k]}
-				if t, ok := fc.tryResolveType(te, env.pkg); ok {
-					if _, isSt := t.Underlying().(*types.Struct); isSt {
-						fld = inner[k+1:]
-						inner = inner[:k]
+			var t types.Type
+			if te, err := parseTypeText(inner); err == nil {
+				if tt, ok := fc.tryResolveType(te, env.pkg); ok {
+					if _, isSt := tt.Underlying().(*types.Struct); isSt {
+						t = tt
 					}
 				}
 			}
-			t := fc.resolveType(TypeExpr{Kind: "name", Name: inner}, env.pkg)
+			if t == nil {
+				k := strings.LastIndex(inner, ".")
+				if k < 0 {
+					specFail("modifies %s: unknown struct type", ent)
+				}
+				te, err := parseTypeText(inner[:k])
+				if err != nil {
+					specFail("modifies %s: %v", ent, err)
+				}
+				t = fc.resolveType(te, env.pkg)
+				fld = inner[k+1:]
+			}
 			stt, ok := t.Underlying().(*types.Struct)
 			if !ok {
 				specFail("modifies %s: not a struct type", ent)
